@@ -494,7 +494,7 @@ def run_case(case):
                     c = sel.coords[names[k]]
                     if rd not in c.dims:
                         continue
-                    lab = c.values[0]
+                    lab = c.isel({rd: 0}).values
                     if _is_nan(lab):
                         continue
                     if not _label_equal(lab, full[KINDS[k][1]]):
